@@ -219,10 +219,14 @@ class C05:
         name = cfg["env"]
         row = E.dec_row(p["instance"])
         RR.EXACT = p["source"] == "boundary"
+        # generator demands are k/Q: whether a load fills the vehicle exactly is decided in integers, and the
+        # property names exactly that case ("load exactly filling the vehicle ... is offered")
+        RR.INTEGER_CAPACITY = "verdict" if name in ("cvrp", "cvrptw", "mtvrp") else False
         try:
             _execute(run, name, cfg, row, p)
         finally:
             RR.EXACT = False
+            RR.INTEGER_CAPACITY = False
 
 
 def _execute(run, name, cfg, row, p):
